@@ -149,6 +149,24 @@ impl std::io::Write for FailingWriter {
     }
 }
 
+/// hands at most `max` bytes per `write` call to the vector behind it (a short write, which
+/// `io::Write` allows): what arrives must not depend on it
+pub struct ShortWriter<'a> {
+    pub inner: &'a mut Vec<u8>,
+    pub max: usize,
+}
+
+impl<'a> std::io::Write for ShortWriter<'a> {
+    fn write(&mut self, buf: &[u8]) -> std::io::Result<usize> {
+        let n = std::cmp::min(self.max, buf.len());
+        self.inner.extend_from_slice(&buf[..n]);
+        Ok(n)
+    }
+    fn flush(&mut self) -> std::io::Result<()> {
+        Ok(())
+    }
+}
+
 pub fn run_case(id: u64, c: &RespCase, tmpdir: &str) -> String {
     let mut line = String::new();
     line.push_str(&format!("resp id={}", id));
@@ -240,7 +258,14 @@ pub fn run_case(id: u64, c: &RespCase, tmpdir: &str) -> String {
         let reqh: Vec<Header> = cc.reqhdrs.iter().filter_map(mk_header).collect();
         let mut out: Vec<u8> = Vec::new();
         let before = SystemTime::now();
-        let res = r.raw_print(&mut out, HTTPVersion(cc.ver.0, cc.ver.1), &reqh, cc.nobody, cc.upgrade.as_deref());
+        // three cases in four print through a writer that takes 1 / 7 / 100 bytes per call
+        let max = [usize::MAX, 1, 7, 100][(id as usize / 3) % 4];
+        let res = if max == usize::MAX {
+            r.raw_print(&mut out, HTTPVersion(cc.ver.0, cc.ver.1), &reqh, cc.nobody, cc.upgrade.as_deref())
+        } else {
+            let mut sw = ShortWriter { inner: &mut out, max };
+            r.raw_print(&mut sw, HTTPVersion(cc.ver.0, cc.ver.1), &reqh, cc.nobody, cc.upgrade.as_deref())
+        };
         let after = SystemTime::now();
         (status, dlen, hdrs, out, res.is_ok(), before, after)
     });
@@ -488,7 +513,11 @@ pub fn gen_random(rng: &mut Rng) -> RespCase {
         let at = rng.below(ops.len() + 1);
         ops.insert(at, Op::T(t));
     }
-    let ver = *rng.pick(&[(1u8, 1u8), (1, 1), (1, 1), (1, 0), (1, 0), (0, 9), (2, 0), (1, 2)]);
+    let ver = if rng.chance(1, 8) {
+        (rng.below(3) as u8, *rng.pick(&[0u8, 1, 9, 10, 11, 12, 100, 255]))
+    } else {
+        *rng.pick(&[(1u8, 1u8), (1, 1), (1, 1), (1, 0), (1, 0), (0, 9), (2, 0), (1, 2)])
+    };
     let mut reqhdrs: Vec<Hdr> = vec![];
     if rng.chance(1, 3) {
         reqhdrs.push((b"Host".to_vec(), b"example".to_vec()));
@@ -590,6 +619,42 @@ pub fn enumerate_c05(full: bool) -> Vec<RespCase> {
                 let body: Vec<u8> = (0..n).map(|i| b'a' + (i % 26) as u8).collect();
                 for ctor in [Ctor::File(body.clone()), Ctor::Data(body.clone()), Ctor::EmptyLen(200, n)] {
                     out.push(RespCase { ctor, ops: vec![], ver, reqhdrs: vec![], nobody, upgrade: None });
+                }
+            }
+        }
+    }
+    // the order of versions: every (major, minor) the type can hold at the edges of the
+    // two-component order (a version below 1.0 with a large minor, 1.x with any minor, large majors)
+    {
+        let mut vs: Vec<(u8, u8)> = vec![];
+        let edge: [u8; 9] = [0, 1, 2, 9, 10, 11, 99, 100, 255];
+        for ma in edge {
+            for mi in edge {
+                vs.push((ma, mi));
+            }
+        }
+        if full {
+            for mi in 0..=255u8 {
+                vs.push((0, mi));
+                vs.push((1, mi));
+            }
+        }
+        for ver in vs {
+            for len in [None, Some(11usize)] {
+                for te in [None, Some("chunked"), Some("identity;q=0.3, chunked;q=0.9")] {
+                    let body: Vec<u8> = (0..len.unwrap_or(7)).map(|i| b'a' + (i % 26) as u8).collect();
+                    let mut reqhdrs = vec![];
+                    if let Some(t) = te {
+                        reqhdrs.push((b"TE".to_vec(), t.as_bytes().to_vec()));
+                    }
+                    out.push(RespCase {
+                        ctor: Ctor::New { status: 200, hdrs: vec![], len, pieces: vec![body] },
+                        ops: vec![Op::T(5)],
+                        ver,
+                        reqhdrs,
+                        nobody: false,
+                        upgrade: None,
+                    });
                 }
             }
         }
